@@ -366,3 +366,14 @@ _run_prev2 = run
 def run(facts, rep, ctx):
     _run_prev2(facts, rep, ctx)
     tb1(facts, rep, 'TB-1', 'alignment::pairwise::Aligner::<F>::custom')
+
+
+_run_before_round2 = run
+
+
+def run(facts, rep, ctx):
+    """rules added after the second round of independent seeding (rules/round2.py)"""
+    _run_before_round2(facts, rep, ctx)
+    from . import round2
+    round2.ao1(facts, rep, 'alignment::pairwise::Aligner::<F>::custom')
+
